@@ -249,6 +249,10 @@ def run(check, ctx):
     # the AEAD layers fed in awkward pieces give the specification's (one-shot) ciphertext and tag
     from . import aead_compose
     aead_compose.compose_tables(check, ctx, rule="SEG")
+    # hashes and XOFs of the Keccak family: the value does not depend on how the data is fed (new(data) / update in pieces)
+    # nor on how the output is read
+    from . import sponge_compose
+    sponge_compose.sponge_tables(check, ctx, rule="SEG")
     check.floor("SEG-c", 5)
     from . import c_keccak
     c_keccak.keccak_tables(check, ctx, rule="SEG-c", groups=("sponge",))
